@@ -181,6 +181,8 @@ theorem EffsCov.appendBatch (fsHas : Nat → Bool) (es : List (LogId × Bytes)) 
     unfold Store.appendBatch
     have h1 := EffsCov.appendAndApply s fsHas (.append id p)
     split
+    · exact h
+    split
     · rename_i seg' s' e' heq
       rw [heq] at h1
       exact ih _ _ _ _ (h.append h1)
@@ -214,6 +216,8 @@ theorem EffsCov.call (s : Store) (fsHas : Nat → Bool) (op : Op) : EffsCov (s.c
           · exact .appendAndApply _ _ _
   | purge upto =>
     simp only [Store.call]
+    split
+    · exact .nil
     split
     · exact .nil
     · split
